@@ -1277,14 +1277,20 @@ class PhasedVcfWriter(VcfAugmenter):
         return genotype_changes
 
     def _remove_existing_phasing(self, record: VariantRecord, samples: Iterable[str]):
-        if self.tag == "PS":
-            for sample in samples:
-                call = record.samples[sample]
-                if "GT" not in call:
-                    continue
-                call.phased = False
-                if call["GT"] is not None and all(allele is not None for allele in call["GT"]):
-                    call["GT"] = sorted(call["GT"])
+        """
+        Remove the phase information of the given samples in both encodings
+        (phased GT with PS, and HP), whichever tag is going to be written
+        """
+        for sample in samples:
+            call = record.samples[sample]
+            for tag in ("PS", "HP"):
+                if tag in call:
+                    call[tag] = None
+            if "GT" not in call:
+                continue
+            call.phased = False
+            if call["GT"] is not None and all(allele is not None for allele in call["GT"]):
+                call["GT"] = sorted(call["GT"])
 
 
 def genotype_code(gt: Optional[Tuple[Optional[int], ...]]) -> Genotype:
